@@ -1,6 +1,7 @@
 package logging
 
 import (
+	"github.com/rs/zerolog"
 	"net/http"
 	"net/url"
 
@@ -195,4 +196,17 @@ func VerifC16TwoRequests() {
 		verifrt.Assert(ids[i] != "" && ids[i] == next.req.Header.Get("X-Trace-ID"), "a trace ID is generated and is the same on both sides")
 	}
 	verifrt.Assert(verifrt.Implies(ids[0] == ids[1], verifrt.RandDrawsEqual()), "generated trace IDs of different requests are equal only if the random draws are equal")
+}
+
+// VerifC18LogLevels: the logger that an accepted configuration starts with:
+// every documented level name selects that level, and an omitted level is the
+// documented default "info" - in particular the logger is never silenced, so a
+// start-up failure still produces its error message.
+func VerifC18LogLevels() {
+	names := []string{"", "debug", "info", "warn", "error"}
+	want := []zerolog.Level{zerolog.InfoLevel, zerolog.DebugLevel, zerolog.InfoLevel, zerolog.WarnLevel, zerolog.ErrorLevel}
+	i := verifrt.Choice("logging.level", len(names))
+	got := parseLevel(names[i])
+	verifrt.Assert(got == want[i], "every documented logging.level selects that level; omitted means info")
+	verifrt.Assert(got <= zerolog.ErrorLevel, "error messages are never filtered out by a documented level")
 }
